@@ -433,16 +433,31 @@ fn main() {
         if ck.imp.dead {
             break;
         }
+        // the generator steers, `validate` decides: redraw (deterministically) until the program lies
+        // in the compared fragment
         let mut g = progen::Gen::new(Rng::for_case(opts.seed ^ 0xC02, i));
-        let p = g.program();
-        if let Err(why) = validate::validate(&p) {
-            // a generator slip: the program is outside the compared fragment — not run, counted
-            invalid += 1;
-            *invalid_kinds.entry(why.chars().take(70).collect()).or_insert(0) += 1;
-            if opts.has_flag("--dump-invalid") {
-                eprintln!("INVALID {why}\n    {}", p.src());
+        let mut p = g.program();
+        let mut ok = false;
+        for attempt in 0..8u64 {
+            match validate::validate(&p) {
+                Ok(()) => {
+                    ok = true;
+                    break;
+                }
+                Err(why) => {
+                    invalid += 1;
+                    *invalid_kinds.entry(why.chars().take(70).collect()).or_insert(0) += 1;
+                    if opts.has_flag("--dump-invalid") {
+                        eprintln!("INVALID {why}\n    {}", p.src());
+                    }
+                    ev.hit("gen.redrawn-outside-validated-fragment");
+                    g = progen::Gen::new(Rng::for_case(opts.seed ^ 0xC02 ^ ((attempt + 1) << 40), i));
+                    p = g.program();
+                }
             }
-            ev.hit("gen.outside-validated-fragment");
+        }
+        if !ok {
+            ev.hit("gen.gave-up");
             continue;
         }
         let (v, m, imp) = ck.check(&p);
